@@ -265,7 +265,7 @@ def r3(ctx, fs):
     seen = {}
     for p in enum_paths(f.body):
         # the cell of the path: what its conditions (switch arms, if chains, early returns - one thing) say about value(left) and value(right)
-        lits = path_literals(p.conds, lambda n: canon(n, env, subst=False))
+        lits = path_literals(p, lambda n: canon(n, env, subst=False))
         if lits is None:
             continue            # all three values of an lbool excluded: the fall-out edge does not exist
         cell = {'L': [value_of(lits, VL)], 'R': [value_of(lits, VR)]}
